@@ -18,7 +18,9 @@ Specification laws (no engine involved):
 
 Runs of the engines (through the refinement theorems, both sides):
 * `readAndCutStr_complement`, `readAndCutStr_complement_empty` — the general field engine;
-* `readAndCutLines_complement` — `-l`.
+* `readAndCutLines_complement` — `-l` (side condition: the domain of C05 for the rewritten
+  request), `readAndCutLines_complement_plain` — the same with the side condition discharged for
+  a plain request all of whose bounds resolve.
 -/
 namespace Tuc
 open Tuc.Spec
@@ -293,6 +295,124 @@ theorem readAndCutLines_complement (o : Opt) (bl' : UserBoundsList) (input : Byt
       ⟨⟨rfl, rfl, rfl, rfl, rfl, rfl, rfl⟩, rfl, rfl, rfl, rfl, rfl⟩ input he
   rw [h2]
   exact h1
+
+/-! ## `-l`: discharging the side condition for plain, resolvable requests -/
+
+theorem mapBounds_plain (f : UserBounds → List UserBounds) : ∀ (bs : List UserBounds),
+    mapBounds f (bs.map .bound) = (bs.flatMap f).map .bound
+  | [] => rfl
+  | b :: t => by simp [mapBounds, mapBounds_plain f t]
+
+theorem plain_of_eraseLast_eq : ∀ (cs : List UserBounds) (l' : List BoF),
+    l'.map eraseLast = (cs.map .bound).map eraseLast →
+    ∃ bs' : List UserBounds, l' = bs'.map .bound ∧
+      ∀ b' ∈ bs', ∃ c ∈ cs, b'.l = c.l ∧ b'.r = c.r
+  | [], l', h => by
+    cases l' with
+    | nil => exact ⟨[], rfl, by intro b hb; cases hb⟩
+    | cons _ _ => simp at h
+  | c :: cs, l', h => by
+    cases l' with
+    | nil => simp at h
+    | cons x t =>
+      simp only [List.map_cons, List.cons.injEq] at h
+      obtain ⟨bs', rfl, hall⟩ := plain_of_eraseLast_eq cs t h.2
+      cases x with
+      | filler f => simp [eraseLast] at h
+      | bound b0 =>
+        have h1 := h.1
+        simp only [eraseLast, BoF.bound.injEq, UserBounds.mk.injEq] at h1
+        refine ⟨b0 :: bs', rfl, ?_⟩
+        intro b' hb'
+        simp only [List.mem_cons] at hb'
+        rcases hb' with rfl | hb'
+        · exact ⟨c, List.mem_cons_self .., h1.1, h1.2.1⟩
+        · obtain ⟨c', hc', e⟩ := hall b' hb'
+          exact ⟨c', List.mem_cons_of_mem _ hc', e⟩
+
+theorem resolve_congr_sides {b c : UserBounds} (hl : b.l = c.l) (hr : b.r = c.r) (n : Nat) :
+    resolve b n = resolve c n := by
+  unfold resolve
+  rw [hl, hr]
+
+/-- what a resolvable bound leaves out is resolvable -/
+theorem complementBound_resolves (b : UserBounds) (n : Nat) (h : resolve b n ≠ none) :
+    ∀ c ∈ complementBound b n, resolve c n ≠ none := by
+  intro c hc
+  unfold complementBound at hc
+  cases hres : resolve b n with
+  | none => exact absurd hres h
+  | some p =>
+    obtain ⟨lo, hi⟩ := p
+    obtain ⟨h1, h2, h3⟩ := resolve_range hres
+    simp only [hres, List.mem_append] at hc
+    rcases hc with hc | hc
+    · by_cases c1 : 1 < lo
+      · simp only [c1, if_true, List.mem_singleton] at hc
+        subst hc
+        have : resolve { l := .some 1, r := .some ((lo : Int) - 1) } n = some (1, lo - 1) := by
+          have a1 : ¬ ((1 : Int) = 0 ∨ (1 : Int) > n ∨ (1 : Int) < -(n : Int)) := by omega
+          have a2 : ¬ ((lo : Int) - 1 = 0 ∨ (lo : Int) - 1 > n ∨ (lo : Int) - 1 < -(n : Int)) := by
+            omega
+          have a3 : (lo : Int) - 1 > 0 := by omega
+          have a4 : ((lo : Int) - 1).toNat = lo - 1 := by omega
+          have a0 : (1 : Int) > 0 := by omega
+          have a5 : (1 : Int).toNat ≤ lo - 1 ∧ 1 ≤ (1 : Int).toNat := by
+            have : (1 : Int).toNat = 1 := rfl
+            omega
+          simp only [resolve, resolveSide, if_neg a1, if_neg a2, if_pos a3, if_pos a0, a4, if_pos a5]
+          rfl
+        rw [this]; simp
+      · simp [c1] at hc
+    · by_cases c2 : hi < n
+      · simp only [c2, if_true, List.mem_singleton] at hc
+        subst hc
+        have : resolve { l := .some ((hi : Int) + 1), r := .some (n : Int) } n = some (hi + 1, n) := by
+          have a1 : ¬ ((hi : Int) + 1 = 0 ∨ (hi : Int) + 1 > n ∨ (hi : Int) + 1 < -(n : Int)) := by
+            omega
+          have a2 : ¬ ((n : Int) = 0 ∨ (n : Int) > n ∨ (n : Int) < -(n : Int)) := by omega
+          have a3 : (hi : Int) + 1 > 0 := by omega
+          have a4 : (n : Int) > 0 := by omega
+          have a5 : ((hi : Int) + 1).toNat = hi + 1 := by omega
+          have a6 : (n : Int).toNat = n := by omega
+          have a7 : hi + 1 ≤ n ∧ 1 ≤ hi + 1 := by omega
+          simp only [resolve, resolveSide, if_neg a1, if_neg a2, if_pos a3, if_pos a4, a5, a6,
+            if_pos a7]
+        rw [this]; simp
+      · simp [c2] at hc
+
+/-- **C15, `-l`, the run, for a plain request all of whose bounds resolve** (the quantifier of
+    C05): no side condition on the rewritten list is left. -/
+theorem readAndCutLines_complement_plain (o : Opt) (bl' : UserBoundsList) (input : Bytes)
+    (bs : List UserBounds) (hplain : o.bounds.list = bs.map .bound)
+    (hres : ∀ b ∈ bs, resolve b (records o.eol.byte input).length ≠ none)
+    (hmark : markLast (mapBounds (complementBound · (records o.eol.byte input).length)
+      o.bounds.list) = some bl'.list)
+    (hd : o.delimiter = [o.eol.byte]) (hty : o.boundsType = .lines)
+    (hre : o.regexBag = none) (hjson : o.json = false)
+    (hL : LastMarked o.bounds.list)
+    (honly : o.onlyDelimited = false) (htrim : o.trim = none) (hg : o.greedyDelimiter = false)
+    (hp : o.compressDelimiter = false) (hrepl : o.replaceDelimiter = none)
+    (hutf : validUtf8 input = true) (h0 : input ≠ []) (h1 : input ≠ [o.eol.byte]) :
+    readAndCutLines { o with complement := true } input =
+      readAndCutLines { o with complement := false, bounds := bl' } input := by
+  have hz : AllNonzero o.bounds.list := by
+    intro b hb
+    rw [hplain] at hb
+    obtain ⟨b', hb', hbb⟩ := List.mem_map.mp hb
+    cases hbb
+    exact nonzero_of_resolve (hres b hb')
+  refine readAndCutLines_complement o bl' input hmark hd hty hre hjson hz hL honly htrim hg hp hrepl
+    hutf h0 h1 (fun _ => ?_)
+  have he := markLast_eraseLast _ _ hmark
+  rw [hplain, mapBounds_plain] at he
+  obtain ⟨bs', hbs', hall⟩ := plain_of_eraseLast_eq _ _ he
+  refine ⟨bs', hbs', ?_⟩
+  intro b' hb'
+  obtain ⟨c, hc, el, er⟩ := hall b' hb'
+  rw [resolve_congr_sides el er]
+  obtain ⟨b, hbmem, hcb⟩ := List.mem_flatMap.mp hc
+  exact complementBound_resolves b _ (hres b hbmem) c hcb
 
 /-! ## executed instances -/
 
